@@ -339,8 +339,23 @@ func (vc *VC) get(st *State, name string, sort Sort) Term {
 		return t
 	}
 	vc.memSorts[name] = sort
-	t := vc.q.Declare(fmt.Sprintf("%s$g%d", name, st.gen), sort)
+	cname := fmt.Sprintf("%s$g%d", name, st.gen)
+	fresh := !vc.q.IsDeclared(cname)
+	t := vc.q.Declare(cname, sort)
 	st.mem[name] = t
+	if fresh && st.gen == 0 && vc.top != nil && vc.top.entry != nil {
+		// every reference stored in the initial heap denotes an object that existed at entry
+		a0 := vc.top.entry.alloc.S
+		sel := fmt.Sprintf("(select (select %s r) p)", cname)
+		switch name {
+		case "M_ptr":
+			vc.q.Raw(fmt.Sprintf("(assert (forall ((r Int) (p Path)) (! (< (root %s) %s) :pattern (%s))))", sel, a0, sel))
+		case "M_iface":
+			vc.q.Raw(fmt.Sprintf("(assert (forall ((r Int) (p Path)) (! (< (root (ival %s)) %s) :pattern (%s))))", sel, a0, sel))
+		case "M_slice":
+			vc.q.Raw(fmt.Sprintf("(assert (forall ((r Int) (p Path)) (! (< (root (sbase %s)) %s) :pattern (%s))))", sel, a0, sel))
+		}
+	}
 	return t
 }
 
